@@ -113,11 +113,45 @@ func ruleC14ParentReresolved(c *Ctx) {
 			}
 		}
 	})
-	if acc == nil {
+	var key ssa.Value
+	var accBlock *ssa.BasicBlock
+	if acc != nil {
+		key = strip(callArgs(&acc.Call)[0])
+		accBlock = acc.Block()
+	} else {
+		// the unwrap lives in a helper that is handed the key: the key is what f passes for the helper's accessor operand
+		allInstrs(f, func(i ssa.Instruction) {
+			cv, ok := i.(*ssa.Call)
+			if !ok || key != nil {
+				return
+			}
+			h := staticCallee(cv)
+			if h == nil || h.Blocks == nil || h.Pkg == nil || h.Pkg.Pkg.Path() != pkgApp {
+				return
+			}
+			allInstrs(h, func(j ssa.Instruction) {
+				hc, isC := j.(*ssa.Call)
+				if !isC {
+					return
+				}
+				if _, isAcc := accessorAction(hc); !isAcc {
+					return
+				}
+				a0 := resolve(callArgs(&hc.Call)[0])
+				for k, p := range h.Params {
+					if a0 == ssa.Value(p) && k < len(cv.Call.Args) {
+						key = strip(cv.Call.Args[k])
+						accBlock = cv.Block()
+						c.FuncsAnalysed[shortName(h)] = true
+					}
+				}
+			})
+		})
+	}
+	if key == nil {
 		c.bad(shortName(f)+"/unwrap", u.pos(f.Pos()), "no accessor call unwrapping the record")
 		return
 	}
-	key := strip(callArgs(&acc.Call)[0])
 	// each way the key value can arrive (phi edges, or the returns of a helper that picks the key): the sk parameter needs
 	// the equality guard; the re-resolved key must come from getOrLoadSystemKey(*ekr.ParentKeyMeta)
 	var problems []string
@@ -163,7 +197,7 @@ func ruleC14ParentReresolved(c *Ctx) {
 				}})
 			}
 		} else {
-			ab := acc.Block()
+			ab := accBlock
 			ways = append(ways, way{key, func(cond func([]Fact) bool) bool { return holdsOnAllEntries(ab, cond) }})
 		}
 	}
@@ -208,7 +242,13 @@ func ruleC14ParentReresolved(c *Ctx) {
 			}
 		}
 	}
-	c.check(len(problems) == 0, shortName(f)+"/unwrapping-key", u.ipos(acc), "unwrapped with the SK version the record names (equality test or re-resolved through the SK cache)", strings.Join(problems, "; "))
+	accPos := u.pos(f.Pos())
+	if acc != nil {
+		accPos = u.ipos(acc)
+	} else if accBlock != nil && len(accBlock.Instrs) > 0 {
+		accPos = u.ipos(accBlock.Instrs[0])
+	}
+	c.check(len(problems) == 0, shortName(f)+"/unwrapping-key", accPos, "unwrapped with the SK version the record names (equality test or re-resolved through the SK cache)", strings.Join(problems, "; "))
 }
 
 // adoptsStored: v is <x>FromEKR(record) with the record re-read by mustLoadLatest after `after` (nil: anywhere in the
